@@ -134,7 +134,7 @@ func runKwWrap(ctx *core.Ctx, in input) {
 	if err != nil {
 		return
 	}
-	o := guard(callDeadline, func() ([]int64, error) {
+	o := guard("aeskw.Wrap", callDeadline, func() ([]int64, error) {
 		out, err := aeskw.Wrap(block, withCap(in.Data, in.Extra))
 		return i64(len(out)), err
 	})
@@ -148,7 +148,7 @@ func runKwUnwrap(ctx *core.Ctx, in input) {
 		return
 	}
 	ivok := refUnwrapIVOK(in.Key, in.Data)
-	o := guard(callDeadline, func() ([]int64, error) {
+	o := guard("aeskw.Unwrap", callDeadline, func() ([]int64, error) {
 		out, err := aeskw.Unwrap(block, withCap(in.Data, in.Extra))
 		return i64(len(out)), err
 	})
@@ -159,7 +159,7 @@ func runKwUnwrap(ctx *core.Ctx, in input) {
 
 func runCbcNew(ctx *core.Ctx, in input) {
 	p := cbcParams[in.P]
-	o := guard(callDeadline, func() ([]int64, error) {
+	o := guard("aescbcaead.New", callDeadline, func() ([]int64, error) {
 		_, err := p.ctor(withCap(in.Key, in.Extra))
 		return nil, err
 	})
@@ -184,7 +184,7 @@ func runCbcSeal(ctx *core.Ctx, in input) {
 	if err != nil || len(in.Nonce) != 16 { // wrong-size nonce = documented misuse: excluded
 		return
 	}
-	o := guard(callDeadline, func() ([]int64, error) {
+	o := guard("aescbcaead.Seal", callDeadline, func() ([]int64, error) {
 		out := aead.Seal(mkDst(in.DstLen, in.DstCap), in.Nonce, in.Data, in.AD)
 		return i64(len(out)), nil
 	})
@@ -209,7 +209,7 @@ func runCbcOpen(ctx *core.Ctx, in input) {
 		tagValid = hmac.Equal(tag, refHmacTag(p, in.Key, in.AD, in.Nonce, body))
 		dec = refCBCDecrypt(in.Key[len(in.Key)-p.enc:], in.Nonce, body)
 	}
-	o := guard(callDeadline, func() ([]int64, error) {
+	o := guard("aescbcaead.Open", callDeadline, func() ([]int64, error) {
 		out, err := aead.Open(mkDst(in.DstLen, in.DstCap), in.Nonce, withCap(ct, in.Extra), in.AD)
 		return i64(len(out)), err
 	})
@@ -235,7 +235,7 @@ func runSymEnc(ctx *core.Ctx, in input) {
 	if !ok {
 		return
 	}
-	o := guard(callDeadline, func() ([]int64, error) {
+	o := guard("crypto.EncryptSymmetric", callDeadline, func() ([]int64, error) {
 		ct, tag, err := kitcrypto.EncryptSymmetric(withCap(in.Data, in.Extra), in.Alg, key, in.Nonce, in.AD)
 		return i64(len(ct), len(tag)), err
 	})
@@ -303,7 +303,7 @@ func runSymDec(ctx *core.Ctx, in input) {
 			ivok = refUnwrapIVOK(in.Key, ct)
 		}
 	}
-	o := guard(callDeadline, func() ([]int64, error) {
+	o := guard("crypto.DecryptSymmetric", callDeadline, func() ([]int64, error) {
 		pt, err := kitcrypto.DecryptSymmetric(withCap(ct, in.Extra), in.Alg, key, in.Nonce, in.Tag, in.AD)
 		return i64(len(pt)), err
 	})
@@ -319,7 +319,7 @@ func runSymDec(ctx *core.Ctx, in input) {
 // The projected observable is the sentinel: ErrUnsupportedAlgorithm or not.
 func runAlg(ctx *core.Ctx, in input) {
 	key := rsaJWK()
-	o := guard(callDeadline, func() ([]int64, error) {
+	o := guard("crypto.alg-dispatch", callDeadline, func() ([]int64, error) {
 		var err error
 		switch in.Which {
 		case 0:
